@@ -210,6 +210,11 @@ def run_threaded(sc, max_rounds=120):
                 else:
                     rec.rec('prelude', 'no_exception')
                 k.destroy()
+                # ... and one emit was asked to run in place, emit(x, asynchronous=True), on a loop-less stream
+                s2 = Stream()
+                k2 = s2.map(lambda x: x).sink(lambda x: None)
+                s2.emit(2, asynchronous=True)
+                k2.destroy()
             me.idle_loop.run_until_complete(go())
 
         def producer_body(pid, p):
